@@ -58,6 +58,8 @@ class Peer(RouterPeer):
         RouterPeer.__init__(self, *a, **kw)
         self.received_meta = []
         self.non_wamp_frames = []
+        self.fragmented_msgs = 0          # WebSocket messages the client wrote in more than one frame (reassembled here)
+        self.max_frame_payload = 0
 
     def _pull(self):
         self.world.settle()
@@ -101,9 +103,12 @@ class Peer(RouterPeer):
                         self.non_wamp_frames.append(("continuation-without-start", ln))
                         continue
                     self.frag_msg[1].append(payload)
+                    self.max_frame_payload = max(self.max_frame_payload, ln)
                     if fin:
                         op, chunks = self.frag_msg
                         self.frag_msg = None
+                        if len(chunks) > 1:
+                            self.fragmented_msgs += 1
                         self._on_wamp_payload(b"".join(chunks), op == 2)
                 elif opcode == 8:
                     code = struct.unpack("!H", payload[:2])[0] if len(payload) >= 2 else None
@@ -217,6 +222,7 @@ class CaseRun:
         self.cancel_step = [None] * n
         self.cur_step = -1
         self.unreg_outcomes = []
+        self.frame_over_fragsize = None
         self.obj_truth = {}                           # proc index -> current truth value of the registered object
         self.obj_invs = {}                            # proc index -> number of invocations delivered so far
         self.falsy_at_call = [False] * n
@@ -787,9 +793,13 @@ class CaseRun:
             exp = lim["exp"] if lim else 24
             kw["router_max_len_exp"] = exp
             self.limit = 2 ** exp
-        elif lim and lim.get("ws"):
-            kw["ws_options"] = {"maxMessagePayloadSize": lim["ws"]}
-            self.limit = lim["ws"]
+        elif lim and (lim.get("ws") or lim.get("frag")):
+            kw["ws_options"] = {}
+            if lim.get("ws"):
+                kw["ws_options"]["maxMessagePayloadSize"] = lim["ws"]
+                self.limit = lim["ws"]          # applies to the whole (reassembled) message, fragmented or not
+            if lim.get("frag"):
+                kw["ws_options"]["autoFragmentSize"] = lim["frag"]
         self.oversized_written = []
         rp = self.rp = Peer(self._session_factory(), transport=case["transport"], serializer=case["serializer"], **kw)
         try:
@@ -830,6 +840,12 @@ class CaseRun:
             self._collect(len(case["steps"]))
             self._aborted()
             self.escaped = [repr(e)[:200] for e in rp.world.escaped]
+            if rp.fragmented_msgs:
+                self.R.count("ws_fragmented_messages", rp.fragmented_msgs)
+            if lim and lim.get("frag") and case["transport"] == "websocket":
+                self.R.count("autofragment_cases")
+                if rp.max_frame_payload > lim["frag"]:
+                    self.frame_over_fragsize = (rp.max_frame_payload, lim["frag"])
         finally:
             try:
                 rp.teardown()
@@ -971,6 +987,13 @@ class CaseRun:
             R.count("invocations_judged")
             cls = self.inv_class(i)
             R.seen("classes", cls)
+            lim_ = case.get("limit") or {}
+            if lim_.get("frag") and lim_.get("ws") and cls in ("result-oversized", "error-oversized", "result-fits-limit"):
+                R.count("autofragment_limit_judged")
+                if cls != "result-fits-limit":
+                    R.count("autofragment_oversized_judged")
+                f_, n_ = lim_["frag"], lim_["ws"]
+                R.seen("autofragment_relation", "%s/%s" % ("tiny" if f_ * 8 <= n_ else "below" if f_ < n_ else "equal" if f_ == n_ else "above", cls))
             plan = inv["plan"]
             chain = ">".join(self.send_exc.get(i, [])) or None
             if chain:
